@@ -487,6 +487,31 @@ func (c *c13Case) Run(ctx *core.Ctx) {
 			}
 		}
 		ctx.Outcome(fmt.Sprint(obs))
+	case "shadow":
+		// variables named like functions of the expression library (front-matter keys such as
+		// type and date, a loop variable called last): the name means the variable
+		env := c13Env()
+		for k, v := range map[string]any{"type": "post", "date": "2024", "last": 9, "one": 1, "first": true, "min": 2, "max": 7, "count": 2, "sum": 6, "map": map[string]any{"k": "mv"}, "filter": "f", "keys": []string{"a", "b"}} {
+			env[k] = v
+		}
+		want := parseCanon(c.Want)
+		for _, pos := range c13Positions {
+			got, err := c13ObserveEnv(ctx, vuego.New(vuego.WithFuncs(c13Funcs())), pos, c.Expr, env)
+			if err != nil {
+				if err.Error() == "unquotable" {
+					continue
+				}
+				ctx.Violation("expr-error", pos, c.Shape, fmt.Sprintf("%s in %s: render failed: %v (reference value %s)", c.Expr, pos, err, c.Want))
+				continue
+			}
+			if exp := c13Expected(pos, want); got != exp {
+				mode := "wrong-value"
+				if got == "" || got == "<omitted>" || got == "false" {
+					mode = "evaluates-to-nothing"
+				}
+				ctx.Violation(mode, pos, c.Shape, fmt.Sprintf("%s in %s: observed %q, conventional value %s gives %q", c.Expr, pos, got, c.Want, exp))
+			}
+		}
 	case "retype":
 		// the same expression text on ONE engine with the variables in other dynamic types first:
 		// the engine must not remember the types of an earlier evaluation
@@ -638,7 +663,7 @@ func init() {
 		ID:    "C13",
 		Level: "exploration",
 		Rule: "expression part: all type-correct expression trees up to the bound over 21 leaves (paths into ints/floats/strings/bools/nested maps/slices/struct, undefined, literals in both quote styles) and 15 binary operators, !, ?: and parentheses (spaced and unspaced variants), each observed in 5 positions ({{ }}, :attr, v-if, v-else-if, v-show) against a reference evaluator; " +
-			"pipe part: every chain up to the bound over 19 filter stages (built-ins and registered functions with int/float/string/bool/variadic/context parameters, arguments as literals in both quote styles, numbers, variables) from 6 initial values, plus every string literal argument of <=3 tokens over {letter, the other quote character, space, comma, parentheses, pipe, dash, dot, colon} in both quote styles against direct application of the Go functions; retype part: every expression of depth <= 1 evaluated on one engine after an evaluation of the same text with the variables as float64 / as strings / absent must have the value it has alone; error part: unknown function, wrong arity, impossible conversion, function error in 4 positions must fail naming the function. non-trivial = all",
+			"pipe part: every chain up to the bound over 19 filter stages (built-ins and registered functions with int/float/string/bool/variadic/context parameters, arguments as literals in both quote styles, numbers, variables) from 6 initial values, plus every string literal argument of <=3 tokens over {letter, the other quote character, space, comma, parentheses, pipe, dash, dot, colon} in both quote styles against direct application of the Go functions; shadow part: 15 expressions over variables named like functions of the expression library (type, date, last, one, first, min, max, count, sum, map, filter, keys) in the 5 positions; retype part: every expression of depth <= 1 evaluated on one engine after an evaluation of the same text with the variables as float64 / as strings / absent must have the value it has alone; error part: unknown function, wrong arity, impossible conversion, function error in 4 positions must fail naming the function. non-trivial = all",
 		Bounds:      map[string]string{"quick": "expression depth <= 2 (one compound operand), pipe chains of length <= 2", "thorough": "expression depth <= 2, pipe chains of length <= 3"},
 		Assumptions: []string{"only exact integer divisions, same-type equalities and bool operands of && || are generated (conventions differ elsewhere)", "string form of float arithmetic is unconstrained", "int->float/float->int parameter conversions are unconstrained"},
 		Decode:      core.DecodeAs[c13Case](),
@@ -650,7 +675,14 @@ func init() {
 				}
 				emit(&c13Case{Part: "expr", Expr: e.Src, Shape: shape, Want: e.V.canon()})
 			})
-			// retype part: every expression of depth <= 1 (leaves and one operator) and the documented call forms
+			for _, e := range []struct{ src, want string }{
+				{"type == 'post'", "bool:true"}, {"type != 'post'", "bool:false"}, {"date + '!'", "string:2024!"}, {"last > 1", "bool:true"}, {"one + 1", "int:2"}, {"map.k", "string:mv"},
+				{"first ? 'y' : 'n'", "string:y"}, {"min < max", "bool:true"}, {"count + 1", "int:3"}, {"sum == 6", "bool:true"}, {"filter == 'f'", "bool:true"}, {"keys[1]", "string:b"},
+				{"len(s) + one", "int:4"}, {"type == 'post' && last > max", "bool:true"}, {"n + 1", "int:6"},
+			} {
+				emit(&c13Case{Part: "shadow", Expr: e.src, Shape: "variable-named-like-a-library-function", Want: e.want})
+			}
+			// shadow part: 15 expressions over variables named like functions of the expression library (type, date, last, one, first, min, max, count, sum, map, filter, keys) in the 5 positions; retype part: every expression of depth <= 1 (leaves and one operator) and the documented call forms
 			c13Exprs(1, func(e c13E) {
 				emit(&c13Case{Part: "retype", Expr: e.Src, Shape: e.Shape})
 			})
